@@ -212,3 +212,26 @@ def agg_fields(term, adt_suffix=None):
         if s_[0] == "agg" and s_[2] and (adt_suffix is None or s_[1].endswith(adt_suffix)):
             return {k: render(v) for k, v in zip(s_[2], s_[3])}
     return {}
+
+
+def conjunction_of(body):
+    """for a boolean function of the shape `p1(..) && p2(..) && ...`: the set of rendered predicate calls whose
+    conjunction is the result, or None if the function has another shape"""
+    cases = body.local_cases(0)
+    true_cases = [(g, t) for g, t, bi in cases if not (t[0] == "const" and t[1] in ("0", "false"))]
+    if len(true_cases) != 1:
+        return None
+    g, t = true_cases[0]
+    if len(g) != 1:
+        return None
+    out = set()
+    for a in next(iter(g)):
+        if a[0] != "bool" or a[2] is not True:
+            return None
+        out.add(render(a[1]))
+    out.add(render(t))
+    # every other case must return false
+    for g2, t2, bi in cases:
+        if (g2, t2) != (g, t) and not (t2[0] == "const" and t2[1] in ("0", "false")):
+            return None
+    return out
